@@ -110,99 +110,116 @@ Lemma b64_bridge_enc (x : binary64) : is_nan _ _ x = false -> spec_encode fmt64 
 Proof. exact (bridge_encode fmt64 fmt64_ok x). Qed.
 
 (* ---- the contract on libm, and its satisfiability *)
-Definition libm_ok (ilog2 : dy -> Z) (pow2 pow2s : Z -> dy) : Prop :=
-  ilog2_ok ilog2 /\ pow2_ok pow2 (-1074) 1023 /\ pow2_ok pow2s (-1074) 1023.
+Definition libm_ok (f : fmt) (ilog2 : dy -> Z) (pow2 pow2s : Z -> dy) : Prop :=
+  ilog2_ok f ilog2 /\ pow2_ok pow2 (-1074) 1023 /\ pow2_ok pow2s (-1074) 1023.
 
 Lemma pow2_ok_weaken pw lo hi lo' hi' : pow2_ok pw lo hi -> lo <= lo' -> hi' <= hi -> pow2_ok pw lo' hi'.
 Proof. intros H Hl Hh e He. apply H. lia. Qed.
 
-Lemma ilog2_exact_ok : ilog2_ok ilog2_exact.
-Proof. intros m e Hm. unfold ilog2_exact. cbn [fst snd]. lia. Qed.
+Lemma ilog2_exact_ok f : fmt_ok f -> ilog2_ok f ilog2_exact.
+Proof. intros Hf m e Hm. unfold ilog2_exact. cbn [fst snd]. lia. Qed.
 Lemma pow2_exact_ok lo hi : pow2_ok pow2_exact lo hi.
 Proof. intros e He. exists 0. split; [lia |]. unfold pow2_exact. f_equal. lia. Qed.
 Lemma pow2_double_ok lo hi : pow2_ok pow2_double lo hi.
 Proof. intros e He. exists 52. split; [lia |]. reflexivity. Qed.
-Lemma libm_exact_ok : libm_ok ilog2_exact pow2_exact pow2_exact.
-Proof. split; [apply ilog2_exact_ok | split; apply pow2_exact_ok]. Qed.
-(* any estimate within one of the exact one is admissible, e.g. always one too high / one too low *)
-Lemma ilog2_off_ok d : -1 <= d <= 1 -> ilog2_ok (fun x => ilog2_exact x + d).
+Lemma libm_exact_ok f : fmt_ok f -> libm_ok f ilog2_exact pow2_exact pow2_exact.
+Proof. intros Hf. split; [apply ilog2_exact_ok; exact Hf | split; apply pow2_exact_ok]. Qed.
+(* estimates that are always one too low, always one too high, or two too high on every normal number are admissible *)
+Lemma ilog2_off_ok f d : -1 <= d <= 1 -> ilog2_ok f (fun x => ilog2_exact x + d).
 Proof. intros Hd m e Hm. unfold ilog2_exact. cbn [fst snd]. lia. Qed.
+Lemma ilog2_off2_ok f : ilog2_ok f (fun x => if ilog2_exact x <? emin f then ilog2_exact x + 1 else ilog2_exact x + 2).
+Proof. intros m e Hm. unfold ilog2_exact. cbn [fst snd]. destruct (Z.log2 m + e <? emin f) eqn:H; lia. Qed.
 
-Section Final.
+Definition not_deep (fbits : Z) (x : full_float) : Prop :=
+  match x with F754_finite _ m e => 2 ^ fbits <= Zpos m \/ 2 ^ (fbits - 1) <= Zpos m | _ => True end.
+
+Section Generic.
+Variable f : fmt.
 Variable ilog2 : dy -> Z.
 Variables pow2 pow2s : Z -> dy.
-Hypothesis Hlibm : libm_ok ilog2 pow2 pow2s.
+Hypothesis Hlibm : libm_ok f ilog2 pow2 pow2s.
+Hypothesis Hf : fmt_ok f.
+Hypothesis Hr1 : fb f <= 1023.
+Hypothesis Hr2 : -1074 <= emin f.
+Hypothesis Hr3 : emax f <= 1023.
 
-Let Hil : ilog2_ok ilog2 := proj1 Hlibm.
+Let Hil : ilog2_ok f ilog2 := proj1 Hlibm.
 Let Hp : pow2_ok pow2 (-1074) 1023 := proj1 (proj2 Hlibm).
 Let Hps : pow2_ok pow2s (-1074) 1023 := proj2 (proj2 Hlibm).
+Let Hp' : pow2_ok pow2 (emin f) (emax f).
+Proof. apply (pow2_ok_weaken _ _ _ _ _ Hp); lia. Qed.
 
-Lemma dec_layout f : fmt_ok f -> fb f <= 1023 -> -1074 <= emin f -> emax f <= 1023 ->
-  forall bits, 0 <= bits < 2 ^ (fb f + eb f + 1) -> soft_decode pow2 pow2s f bits = Some (spec_decode f bits).
+Lemma dec_layout : forall bits, 0 <= bits < 2 ^ (fb f + eb f + 1) -> soft_decode pow2 pow2s f bits = Some (spec_decode f bits).
 Proof.
-  intros Hf H1 H2 H3 bits Hb. destruct Hf as (Hfb & Hr).
-  apply soft_decode_correct; try assumption; [split; assumption | |].
+  intros bits Hb. pose proof Hf as (Hfb & _).
+  apply soft_decode_correct; try assumption.
   - apply (pow2_ok_weaken _ _ _ _ _ Hp); lia.
   - apply (pow2_ok_weaken _ _ _ _ _ Hps); lia.
 Qed.
 
-Lemma enc_layout f fixsub : fmt_ok f -> -1074 <= emin f -> emax f <= 1023 ->
-  forall x, enc_ok f fixsub x -> soft_encode ilog2 pow2 f fixsub x = Some (spec_encode f x).
-Proof.
-  intros Hf H2 H3 x Hx. apply soft_encode_correct; try assumption.
-  apply (pow2_ok_weaken _ _ _ _ _ Hp); lia.
-Qed.
+Lemma enc_layout fixsub : forall x, enc_ok f fixsub x -> soft_encode ilog2 pow2 f fixsub x = Some (spec_encode f x).
+Proof. intros x Hx. apply soft_encode_correct; assumption. Qed.
 
-Theorem decode32 : forall bits, 0 <= bits < 2 ^ 32 ->
-  soft_decode pow2 pow2s fmt32 bits = Some (fval_of_b32 (b32_of_bits bits)).
-Proof.
-  intros bits Hb. rewrite <- b32_bridge by lia.
-  apply (dec_layout fmt32 fmt32_ok); cbn; lia.
-Qed.
-Theorem decode64 : forall bits, 0 <= bits < 2 ^ 64 ->
-  soft_decode pow2 pow2s fmt64 bits = Some (fval_of_b64 (b64_of_bits bits)).
-Proof.
-  intros bits Hb. rewrite <- b64_bridge by lia.
-  apply (dec_layout fmt64 fmt64_ok); cbn; lia.
-Qed.
+Lemma dec_flocq : forall bits, 0 <= bits < 2 ^ (fb f + eb f + 1) ->
+  soft_decode pow2 pow2s f bits = Some (fval_of_ff (binary_float_of_bits_aux (fb f) (eb f) bits)).
+Proof. intros bits Hb. rewrite <- (bridge_decode f Hf) by lia. apply dec_layout. exact Hb. Qed.
 
-Theorem encode32 : forall x : binary32, is_nan _ _ x = false ->
-  soft_encode ilog2 pow2 fmt32 true (fval_of_b32 x) = Some (bits_of_b32 x).
-Proof.
-  intros x Hn. rewrite <- (b32_bridge_enc x Hn).
-  apply (enc_layout fmt32 true fmt32_ok); cbn; try lia. apply (b_enc_ok fmt32 fmt32_ok x).
-Qed.
-Theorem encode64 : forall x : binary64, is_nan _ _ x = false ->
-  soft_encode ilog2 pow2 fmt64 true (fval_of_b64 x) = Some (bits_of_b64 x).
-Proof.
-  intros x Hn. rewrite <- (b64_bridge_enc x Hn).
-  apply (enc_layout fmt64 true fmt64_ok); cbn; try lia. apply (b_enc_ok fmt64 fmt64_ok x).
-Qed.
+Lemma enc_flocq (x : binary_float (fb f + 1) (2 ^ (eb f - 1))) : is_nan _ _ x = false ->
+  soft_encode ilog2 pow2 f true (fval_of_ff (B2FF _ _ x)) = Some (bits_of_binary_float (fb f) (eb f) x).
+Proof. intros Hn. rewrite <- (bridge_encode f Hf x Hn). apply enc_layout. apply (b_enc_ok f Hf x). Qed.
 
-(* the code as it stands: everything except the subnormals whose leading fraction bit is 0 *)
-Definition not_deep (fbits : Z) (x : full_float) : Prop :=
-  match x with F754_finite _ m e => 2 ^ fbits <= Zpos m \/ 2 ^ (fbits - 1) <= Zpos m | _ => True end.
-
-Lemma enc_cur f (x : binary_float (fb f + 1) (2 ^ (eb f - 1))) : fmt_ok f -> -1074 <= emin f -> emax f <= 1023 ->
+Lemma enc_cur (x : binary_float (fb f + 1) (2 ^ (eb f - 1))) :
   is_nan _ _ x = false -> not_deep (fb f) (B2FF _ _ x) ->
   soft_encode ilog2 pow2 f false (fval_of_ff (B2FF _ _ x)) = Some (bits_of_binary_float (fb f) (eb f) x).
 Proof.
-  intros Hf H2 H3 Hn Hd. rewrite <- (bridge_encode f Hf x Hn).
-  apply (enc_layout f false Hf H2 H3).
-  pose proof (b_enc_ok f Hf x) as Hok.
+  intros Hn Hd. rewrite <- (bridge_encode f Hf x Hn). apply enc_layout.
+  pose proof (b_enc_ok f Hf x) as Hok. pose proof Hf as (Hfb & _).
   destruct x as [s | s | s pl Hpl | s m e Hb]; cbn [B2FF fval_of_ff enc_ok not_deep] in *; try exact I.
   destruct Hok as [Hv _]. split; [exact Hv |]. right.
   destruct Hd as [Hd | Hd]; [| exact Hd].
   apply Z.le_trans with (2 ^ fb f); [| exact Hd]. apply Z.pow_le_mono_r; lia.
 Qed.
+
+Lemma enc_cur_deep s m : 0 < m < 2 ^ (fb f - 1) ->
+  soft_encode ilog2 pow2 f false (FFin s m (emin f - fb f)) = Some (join f s 0 (m * 2 ^ (fb f - 1 - Z.log2 m))) /\
+  soft_encode ilog2 pow2 f false (FFin s m (emin f - fb f)) <> Some (spec_encode f (FFin s m (emin f - fb f))).
+Proof.
+  intros Hm. pose proof Hf as (Hfb & _). split.
+  - apply (soft_encode_cur_subnormal ilog2 pow2 f Hf Hil Hp' s m). split; [lia |].
+    apply Z.lt_le_trans with (2 ^ (fb f - 1)); [lia | apply Z.pow_le_mono_r; lia].
+  - apply (soft_encode_cur_deep_wrong ilog2 pow2 f Hf Hil Hp' s m). exact Hm.
+Qed.
+End Generic.
+
+(* both paths on a host whose float/double objects have the IEEE 754 layout *)
+Definition host32 (img : Z) : fval := fval_of_b32 (b32_of_bits img).
+Definition host64 (img : Z) : fval := fval_of_b64 (b64_of_bits img).
+
+Section Final32.
+Variable ilog2 : dy -> Z.
+Variables pow2 pow2s : Z -> dy.
+Hypothesis Hlibm : libm_ok fmt32 ilog2 pow2 pow2s.
+Let R1 : fb fmt32 <= 1023. Proof. cbn; lia. Qed.
+Let R2 : -1074 <= emin fmt32. Proof. cbn; lia. Qed.
+Let R3 : emax fmt32 <= 1023. Proof. cbn; lia. Qed.
+
+Theorem decode32 : forall bits, 0 <= bits < 2 ^ 32 ->
+  soft_decode pow2 pow2s fmt32 bits = Some (fval_of_b32 (b32_of_bits bits)).
+Proof.
+  intros bits Hb. rewrite (dec_flocq fmt32 ilog2 pow2 pow2s Hlibm fmt32_ok R1 R2 R3 bits Hb).
+  unfold fval_of_b32, b32_of_bits, binary_float_of_bits. rewrite B2FF_FF2B. reflexivity.
+Qed.
+Theorem encode32 : forall x : binary32, is_nan _ _ x = false ->
+  soft_encode ilog2 pow2 fmt32 true (fval_of_b32 x) = Some (bits_of_b32 x).
+Proof. intros x Hn. exact (enc_flocq fmt32 ilog2 pow2 pow2s Hlibm fmt32_ok R2 R3 x Hn). Qed.
 Theorem encode32_cur_partial : forall x : binary32, is_nan _ _ x = false -> not_deep 23 (B2FF _ _ x) ->
   soft_encode ilog2 pow2 fmt32 false (fval_of_b32 x) = Some (bits_of_b32 x).
-Proof. intros x Hn Hd. apply (enc_cur fmt32 x fmt32_ok); cbn; try lia; assumption. Qed.
-Theorem encode64_cur_partial : forall x : binary64, is_nan _ _ x = false -> not_deep 52 (B2FF _ _ x) ->
-  soft_encode ilog2 pow2 fmt64 false (fval_of_b64 x) = Some (bits_of_b64 x).
-Proof. intros x Hn Hd. apply (enc_cur fmt64 x fmt64_ok); cbn; try lia; assumption. Qed.
+Proof. intros x Hn Hd. exact (enc_cur fmt32 ilog2 pow2 pow2s Hlibm fmt32_ok R2 R3 x Hn Hd). Qed.
+Theorem encode32_cur_deep : forall s m, 0 < m < 2 ^ 22 ->
+  soft_encode ilog2 pow2 fmt32 false (FFin s m (-149)) = Some (join fmt32 s 0 (m * 2 ^ (22 - Z.log2 m))) /\
+  soft_encode ilog2 pow2 fmt32 false (FFin s m (-149)) <> Some (spec_encode fmt32 (FFin s m (-149))).
+Proof. intros s m Hm. exact (enc_cur_deep fmt32 ilog2 pow2 pow2s Hlibm fmt32_ok R2 R3 s m Hm). Qed.
 
-(* round trips of the software codec (repaired encoder) *)
 Theorem roundtrip_value32 : forall x : binary32, is_nan _ _ x = false ->
   exists b, soft_encode ilog2 pow2 fmt32 true (fval_of_b32 x) = Some b /\ 0 <= b < 2 ^ 32 /\
             soft_decode pow2 pow2s fmt32 b = Some (fval_of_b32 x).
@@ -212,6 +229,50 @@ Proof.
   rewrite decode32 by exact Hr. unfold b32_of_bits, bits_of_b32.
   rewrite binary_float_of_bits_of_binary_float. reflexivity.
 Qed.
+Theorem roundtrip_bits32 : forall b, 0 <= b < 2 ^ 32 -> is_nan _ _ (b32_of_bits b) = false ->
+  exists v, soft_decode pow2 pow2s fmt32 b = Some v /\ soft_encode ilog2 pow2 fmt32 true v = Some b.
+Proof.
+  intros b Hb Hn. exists (fval_of_b32 (b32_of_bits b)). split; [apply decode32; exact Hb |].
+  rewrite encode32 by exact Hn. unfold b32_of_bits, bits_of_b32.
+  rewrite bits_of_binary_float_of_bits by exact Hb. reflexivity.
+Qed.
+Theorem any_mode_encode32 : forall c_use img, 0 <= img < 2 ^ 32 -> is_nan _ _ (b32_of_bits img) = false ->
+  ieee_encode ilog2 pow2 fmt32 true c_use host32 img = Some img.
+Proof.
+  intros c_use img Hb Hn. unfold ieee_encode. destruct c_use; [reflexivity |].
+  unfold host32. rewrite encode32 by exact Hn. unfold b32_of_bits, bits_of_b32.
+  rewrite bits_of_binary_float_of_bits by exact Hb. reflexivity.
+Qed.
+Theorem any_mode_decode32 : forall c_use bits, 0 <= bits < 2 ^ 32 ->
+  ieee_decode pow2 pow2s fmt32 c_use host32 bits = Some (host32 bits).
+Proof. intros c_use bits Hb. unfold ieee_decode. destruct c_use; [reflexivity |]. apply decode32. exact Hb. Qed.
+End Final32.
+
+Section Final64.
+Variable ilog2 : dy -> Z.
+Variables pow2 pow2s : Z -> dy.
+Hypothesis Hlibm : libm_ok fmt64 ilog2 pow2 pow2s.
+Let R1 : fb fmt64 <= 1023. Proof. cbn; lia. Qed.
+Let R2 : -1074 <= emin fmt64. Proof. cbn; lia. Qed.
+Let R3 : emax fmt64 <= 1023. Proof. cbn; lia. Qed.
+
+Theorem decode64 : forall bits, 0 <= bits < 2 ^ 64 ->
+  soft_decode pow2 pow2s fmt64 bits = Some (fval_of_b64 (b64_of_bits bits)).
+Proof.
+  intros bits Hb. rewrite (dec_flocq fmt64 ilog2 pow2 pow2s Hlibm fmt64_ok R1 R2 R3 bits Hb).
+  unfold fval_of_b64, b64_of_bits, binary_float_of_bits. rewrite B2FF_FF2B. reflexivity.
+Qed.
+Theorem encode64 : forall x : binary64, is_nan _ _ x = false ->
+  soft_encode ilog2 pow2 fmt64 true (fval_of_b64 x) = Some (bits_of_b64 x).
+Proof. intros x Hn. exact (enc_flocq fmt64 ilog2 pow2 pow2s Hlibm fmt64_ok R2 R3 x Hn). Qed.
+Theorem encode64_cur_partial : forall x : binary64, is_nan _ _ x = false -> not_deep 52 (B2FF _ _ x) ->
+  soft_encode ilog2 pow2 fmt64 false (fval_of_b64 x) = Some (bits_of_b64 x).
+Proof. intros x Hn Hd. exact (enc_cur fmt64 ilog2 pow2 pow2s Hlibm fmt64_ok R2 R3 x Hn Hd). Qed.
+Theorem encode64_cur_deep : forall s m, 0 < m < 2 ^ 51 ->
+  soft_encode ilog2 pow2 fmt64 false (FFin s m (-1074)) = Some (join fmt64 s 0 (m * 2 ^ (51 - Z.log2 m))) /\
+  soft_encode ilog2 pow2 fmt64 false (FFin s m (-1074)) <> Some (spec_encode fmt64 (FFin s m (-1074))).
+Proof. intros s m Hm. exact (enc_cur_deep fmt64 ilog2 pow2 pow2s Hlibm fmt64_ok R2 R3 s m Hm). Qed.
+
 Theorem roundtrip_value64 : forall x : binary64, is_nan _ _ x = false ->
   exists b, soft_encode ilog2 pow2 fmt64 true (fval_of_b64 x) = Some b /\ 0 <= b < 2 ^ 64 /\
             soft_decode pow2 pow2s fmt64 b = Some (fval_of_b64 x).
@@ -221,30 +282,11 @@ Proof.
   rewrite decode64 by exact Hr. unfold b64_of_bits, bits_of_b64.
   rewrite binary_float_of_bits_of_binary_float. reflexivity.
 Qed.
-Theorem roundtrip_bits32 : forall b, 0 <= b < 2 ^ 32 -> is_nan _ _ (b32_of_bits b) = false ->
-  exists v, soft_decode pow2 pow2s fmt32 b = Some v /\ soft_encode ilog2 pow2 fmt32 true v = Some b.
-Proof.
-  intros b Hb Hn. exists (fval_of_b32 (b32_of_bits b)). split; [apply decode32; exact Hb |].
-  rewrite encode32 by exact Hn. unfold b32_of_bits, bits_of_b32.
-  rewrite bits_of_binary_float_of_bits by exact Hb. reflexivity.
-Qed.
 Theorem roundtrip_bits64 : forall b, 0 <= b < 2 ^ 64 -> is_nan _ _ (b64_of_bits b) = false ->
   exists v, soft_decode pow2 pow2s fmt64 b = Some v /\ soft_encode ilog2 pow2 fmt64 true v = Some b.
 Proof.
   intros b Hb Hn. exists (fval_of_b64 (b64_of_bits b)). split; [apply decode64; exact Hb |].
   rewrite encode64 by exact Hn. unfold b64_of_bits, bits_of_b64.
-  rewrite bits_of_binary_float_of_bits by exact Hb. reflexivity.
-Qed.
-
-(* both paths on a host whose float/double objects have the IEEE 754 layout *)
-Definition host32 (img : Z) : fval := fval_of_b32 (b32_of_bits img).
-Definition host64 (img : Z) : fval := fval_of_b64 (b64_of_bits img).
-
-Theorem any_mode_encode32 : forall c_use img, 0 <= img < 2 ^ 32 -> is_nan _ _ (b32_of_bits img) = false ->
-  ieee_encode ilog2 pow2 fmt32 true c_use host32 img = Some img.
-Proof.
-  intros c_use img Hb Hn. unfold ieee_encode. destruct c_use; [reflexivity |].
-  unfold host32. rewrite encode32 by exact Hn. unfold b32_of_bits, bits_of_b32.
   rewrite bits_of_binary_float_of_bits by exact Hb. reflexivity.
 Qed.
 Theorem any_mode_encode64 : forall c_use img, 0 <= img < 2 ^ 64 -> is_nan _ _ (b64_of_bits img) = false ->
@@ -254,35 +296,10 @@ Proof.
   unfold host64. rewrite encode64 by exact Hn. unfold b64_of_bits, bits_of_b64.
   rewrite bits_of_binary_float_of_bits by exact Hb. reflexivity.
 Qed.
-Theorem any_mode_decode32 : forall c_use bits, 0 <= bits < 2 ^ 32 ->
-  ieee_decode pow2 pow2s fmt32 c_use host32 bits = Some (host32 bits).
-Proof. intros c_use bits Hb. unfold ieee_decode. destruct c_use; [reflexivity |]. apply decode32. exact Hb. Qed.
 Theorem any_mode_decode64 : forall c_use bits, 0 <= bits < 2 ^ 64 ->
   ieee_decode pow2 pow2s fmt64 c_use host64 bits = Some (host64 bits).
 Proof. intros c_use bits Hb. unfold ieee_decode. destruct c_use; [reflexivity |]. apply decode64. exact Hb. Qed.
-(* the encoder as it stands is wrong on EVERY subnormal whose leading fraction bit is 0, and this is what it returns *)
-Theorem encode32_cur_deep : forall s m, 0 < m < 2 ^ 22 ->
-  soft_encode ilog2 pow2 fmt32 false (FFin s m (-149)) = Some (join fmt32 s 0 (m * 2 ^ (22 - Z.log2 m))) /\
-  soft_encode ilog2 pow2 fmt32 false (FFin s m (-149)) <> Some (spec_encode fmt32 (FFin s m (-149))).
-Proof.
-  intros s m Hm.
-  assert (Hp' : pow2_ok pow2 (emin fmt32) (emax fmt32)) by (apply (pow2_ok_weaken _ _ _ _ _ Hp); cbn; lia).
-  split.
-  - apply (soft_encode_cur_subnormal ilog2 pow2 fmt32 fmt32_ok Hil Hp' s m). cbn. lia.
-  - apply (soft_encode_cur_deep_wrong ilog2 pow2 fmt32 fmt32_ok Hil Hp' s m). cbn. lia.
-Qed.
-Theorem encode64_cur_deep : forall s m, 0 < m < 2 ^ 51 ->
-  soft_encode ilog2 pow2 fmt64 false (FFin s m (-1074)) = Some (join fmt64 s 0 (m * 2 ^ (51 - Z.log2 m))) /\
-  soft_encode ilog2 pow2 fmt64 false (FFin s m (-1074)) <> Some (spec_encode fmt64 (FFin s m (-1074))).
-Proof.
-  intros s m Hm.
-  assert (Hp' : pow2_ok pow2 (emin fmt64) (emax fmt64)) by (apply (pow2_ok_weaken _ _ _ _ _ Hp); cbn; lia).
-  split.
-  - apply (soft_encode_cur_subnormal ilog2 pow2 fmt64 fmt64_ok Hil Hp' s m). cbn. lia.
-  - apply (soft_encode_cur_deep_wrong ilog2 pow2 fmt64 fmt64_ok Hil Hp' s m). cbn. lia.
-Qed.
-End Final.
-
+End Final64.
 
 (* the native path is the identity on memory images, whatever the platform attaches to them *)
 Theorem native_identity : forall ilog2 pow2 pow2s f fixsub host img,
